@@ -241,6 +241,8 @@ package redis
 //@ spec func isZeroTime(t time.Time) bool
 //@ spec func parseF(s string) float64
 //@ spec func parseFOK(s string) bool
+//@ spec func scoreExcl(s string) bool = s[0] == 40
+//@ spec func scoreText(s string) string = (s[0] == 40 ? s[1:] : s)
 
 //@ func newDefaultSetOption
 //@ assigns nothing
@@ -324,8 +326,9 @@ package redis
 //@ func nextRangeScoreIndexArgument
 //@ requires args != nil
 //@ assigns args.index
-//@ ensures {C10} err == nil ==> old(strArg(args, 0)) && len(old(argS(args, 0))) > 0 && args.index == old(args.index) + 1
-//@ ensures {C05} err == nil ==> result1 == (old(argS(args, 0))[0] == 40)
+//@ ensures {C05,C10} err == nil <==> (old(strArg(args, 0)) && len(old(argS(args, 0))) > 0 && parseFOK(scoreText(old(argS(args, 0)))))
+//@ ensures {C10} err == nil ==> args.index == old(args.index) + 1
+//@ ensures {C05} err == nil ==> result1 == scoreExcl(old(argS(args, 0))) && result0 == parseF(scoreText(old(argS(args, 0))))
 //@ ensures old(args.index) <= args.index && args.index <= old(args.index) + 1
 
 //@ func nextKeysArguments
@@ -701,3 +704,29 @@ package redis
 
 //@ executor "HLEN"
 //@ ensures {C12} err == nil ==> result0 != nil && result0.Type == proto.IntegerMessage
+
+//@ executor "ZRANGEBYSCORE"
+//@ ensures {C05} H_calls == old(H_calls) + 1 ==> H_m[old(H_calls)] == "ZRangeByScore" && H_conn[old(H_calls)] == conn && H_ZRangeByScore_key[old(H_calls)] == old(argS(args, 0)) && result0 == H_res[old(H_calls)] && err == H_err[old(H_calls)]
+//@ ensures {C05} H_calls == old(H_calls) + 1 ==> H_ZRangeByScore_min[old(H_calls)] == parseF(scoreText(old(argS(args, 1)))) && H_ZRangeByScore_max[old(H_calls)] == parseF(scoreText(old(argS(args, 2))))
+//@ ensures {C05} H_calls == old(H_calls) + 1 ==> H_ZRangeByScore_opt_MINEXCLUSIVE[old(H_calls)] == scoreExcl(old(argS(args, 1))) && H_ZRangeByScore_opt_MAXEXCLUSIVE[old(H_calls)] == scoreExcl(old(argS(args, 2)))
+//@ ensures {C05,C10} H_calls == old(H_calls) || H_calls == old(H_calls) + 1
+//@ ensures {C10} !old(strArg(args, 0)) || !old(strArg(args, 1)) || !old(strArg(args, 2)) ==> err != nil && H_calls == old(H_calls)
+
+//@ executor "ZREVRANGEBYSCORE"
+//@ ensures {C05} H_calls == old(H_calls) + 1 ==> H_m[old(H_calls)] == "ZRangeByScore" && H_conn[old(H_calls)] == conn && H_ZRangeByScore_key[old(H_calls)] == old(argS(args, 0))
+//@ ensures {C05} H_calls == old(H_calls) + 1 ==> H_ZRangeByScore_max[old(H_calls)] == parseF(scoreText(old(argS(args, 1)))) && H_ZRangeByScore_min[old(H_calls)] == parseF(scoreText(old(argS(args, 2))))
+//@ ensures {C05} H_calls == old(H_calls) + 1 ==> H_ZRangeByScore_opt_MAXEXCLUSIVE[old(H_calls)] == scoreExcl(old(argS(args, 1))) && H_ZRangeByScore_opt_MINEXCLUSIVE[old(H_calls)] == scoreExcl(old(argS(args, 2)))
+//@ ensures {C05,C10} H_calls == old(H_calls) || H_calls == old(H_calls) + 1
+//@ ensures {C10} !old(strArg(args, 0)) || !old(strArg(args, 1)) || !old(strArg(args, 2)) ==> err != nil && H_calls == old(H_calls)
+
+//@ executor "ZRANGE"
+//@ ensures {C05} H_calls == old(H_calls) + 1 ==> (H_m[old(H_calls)] == "ZRangeByScore" || H_m[old(H_calls)] == "ZRange") && H_conn[old(H_calls)] == conn && result0 == H_res[old(H_calls)] && err == H_err[old(H_calls)]
+//@ ensures {C05} H_calls == old(H_calls) + 1 && H_m[old(H_calls)] == "ZRangeByScore" ==> H_ZRangeByScore_key[old(H_calls)] == old(argS(args, 0)) && H_ZRangeByScore_min[old(H_calls)] == parseF(scoreText(old(argS(args, 1)))) && H_ZRangeByScore_max[old(H_calls)] == parseF(scoreText(old(argS(args, 2)))) && H_ZRangeByScore_opt_MINEXCLUSIVE[old(H_calls)] == scoreExcl(old(argS(args, 1))) && H_ZRangeByScore_opt_MAXEXCLUSIVE[old(H_calls)] == scoreExcl(old(argS(args, 2))) && H_ZRangeByScore_opt_BYSCORE[old(H_calls)]
+//@ ensures {C05} H_calls == old(H_calls) + 1 && H_m[old(H_calls)] == "ZRange" ==> H_ZRange_key[old(H_calls)] == old(argS(args, 0)) && !H_ZRange_opt_BYSCORE[old(H_calls)]
+//@ ensures {C05,C10} H_calls == old(H_calls) || H_calls == old(H_calls) + 1
+//@ ensures {C10} !old(strArg(args, 0)) || !old(strArg(args, 1)) || !old(strArg(args, 2)) ==> err != nil && H_calls == old(H_calls)
+
+//@ executor "ZREVRANGE"
+//@ ensures {C05,C12} H_calls >= old(H_calls) + 1 ==> H_m[old(H_calls)] == "ZRange" && H_conn[old(H_calls)] == conn && H_ZRange_key[old(H_calls)] == old(argS(args, 0)) && H_ZRange_start[old(H_calls)] == -1 - old(argI(args, 2)) && H_ZRange_stop[old(H_calls)] == -1 - old(argI(args, 1))
+//@ ensures {C05,C10} H_calls == old(H_calls) || H_calls == old(H_calls) + 1
+//@ ensures {C10} !old(strArg(args, 0)) || !old(intArg(args, 1)) || !old(intArg(args, 2)) ==> err != nil && H_calls == old(H_calls)
